@@ -25,3 +25,21 @@ package mqtttest
 //@ func mqtttest.NewPublishStub$1 -> r
 //@ ensures[C20] quit != nil && (closed(quit) || len(quit) > 0) ==> r == mqtt.ErrCanceled
 //@ ensures[C20] (quit == nil || (!closed(quit) && len(quit) == 0)) ==> r == *fix
+
+// Cleanup: reports exactly when the number of calls differs from the number of expectations.
+//@ func mqtttest.NewPublishMock$1
+//@ requires *t != nil
+//@ ensures[C20] (reports(*t) > old(reports(*t))) == (*wantIndex != len(*want))
+
+//@ func mqtttest.newSubscribeMock$1
+//@ requires *t != nil
+//@ ensures[C20] (reports(*t) > old(reports(*t))) == (*wantIndex != len(*want))
+
+//@ func mqtttest.NewReadSlicesMock$1
+//@ requires *t != nil
+//@ ensures[C20] (reports(*t) > old(reports(*t))) == (*wantIndex != len(*want))
+
+//@ func mqtttest.newSubscribeStub$1 -> r
+//@ panics len(topicFilters) == 0
+//@ ensures[C20] quit != nil && (closed(quit) || len(quit) > 0) ==> r == mqtt.ErrCanceled
+//@ ensures[C20] (quit == nil || (!closed(quit) && len(quit) == 0)) ==> r == *fix
